@@ -366,3 +366,124 @@ def abs_compare(test):
             from ..model import _CMP_SWAP
             return right, _CMP_SWAP.get(op, op), left
     return None
+
+
+# ---- parameter defaults ----------------------------------------------------------------------------------------------
+
+def anchored_files():
+    """{property id: [anchored .py files]} from the given properties file."""
+    import json as _json
+    from pathlib import Path as _Path
+    out = {}
+    for line in (_Path(__file__).resolve().parents[2] / "properties.jsonl").read_text().splitlines():
+        if line.strip():
+            d = _json.loads(line)
+            out[d["id"]] = [f for f in d["anchors"]["files"] if f.endswith(".py")]
+    return out
+
+
+def defaults_of(fnode):
+    """[[parameter, source of its default]] for the parameters that have one."""
+    a = fnode.args
+    pos = a.posonlyargs + a.args
+    out = [[x.arg, ast.unparse(d)] for x, d in zip(pos[len(pos) - len(a.defaults):], a.defaults)]
+    out += [[x.arg, ast.unparse(d)] for x, d in zip(a.kwonlyargs, a.kw_defaults) if d is not None]
+    return out
+
+
+def signature_rule(chk):
+    """SIG: a caller that relies on a default gets the behaviour the default selects.  The defaults of every function of
+    the files this property is anchored in equal the reference ones (bvstatic/data/signatures.json).  New parameters are
+    not looked at; a removed function is left to the rules that anchor it."""
+    import json as _json
+    from pathlib import Path as _Path
+    ref = _json.loads((_Path(__file__).resolve().parents[1] / "data" / "signatures.json").read_text())
+    files = anchored_files().get(chk.prop, [])
+    chk.rule("SIG", "parameter defaults of the functions of the anchored files are the reference ones")
+    n = 0
+    for rel in files:
+        m = chk.repo.modules.get(rel)
+        if m is None:
+            continue
+        cur = {f.qualname + (":setter" if f.is_setter else ""): f for f in m.all_funcs()}
+        for q, pinned in sorted(ref.get(rel, {}).items()):
+            f = cur.get(q)
+            if f is None:
+                continue
+            have = dict(defaults_of(f.node))
+            bad = [(p, d, have.get(p)) for p, d in pinned if have.get(p) != d and _literal_differs(d, have.get(p), f)]
+            n += 1
+            chk.inst("SIG", f"{rel}::{q}", not bad, f"{len(pinned)} defaults unchanged" if not bad else
+                     "; ".join(f"default of `{p}` is {h if h is not None else 'gone'} (reference: {d})" for p, d, h in bad), loc(f, f.node), nontrivial=False)
+    if files and n == 0:
+        raise AnalysisError("SIG matched no function with defaults in the anchored files")
+
+
+def _literal_differs(ref_src, cur_src, f):
+    """A default written another way (1e-3 / 0.001, a named module constant bound to the same literal) is the same default."""
+    if cur_src is None:
+        return True
+    try:
+        a, b = ast.literal_eval(ref_src), None
+    except Exception:
+        return ref_src.replace(" ", "") != cur_src.replace(" ", "")
+    try:
+        b = ast.literal_eval(cur_src)
+    except Exception:
+        # a module-level constant?
+        node = f.module.assigns.get(cur_src)
+        try:
+            b = ast.literal_eval(node) if node is not None else None
+        except Exception:
+            return True
+        if node is None:
+            return True
+    return not (a == b and type(a) is type(b))
+
+
+# ---- small accessors and gates pinned by E8 ------------------------------------------------------------------------------
+# Functions a property depends on that have no independent oracle (a gate `elevation <= 0`, a getter that chooses between
+# a cache and its source, a constructor that wires defaults).  Table built from mutation testing of the checks
+# (tools/mutation_score.py): single-point mutants of these functions passed the suite and every rule.  The rule is
+# "proven equal to the reference version by E8" — behavioural, not textual.
+LIS, EPHF, MANF, CWHF, COVF = "beyond/propagators/listeners.py", "beyond/orbits/ephem.py", "beyond/orbits/man.py", "beyond/utils/cwhelper.py", "beyond/orbits/cov.py"
+E8_PINS = {
+    "C06": [("beyond/propagators/keplernum.py", "KeplerNum.__init__", "method, step, tolerance and frame wiring of the integrator")],
+    "C08": [(EPHF, "Ephem.__iter__", "native iteration starts at the first stored point"), (EPHF, "Ephem.__next__", "native iteration visits every stored point once"),
+            (EPHF, "Ephem.start", "first stored date"), (EPHF, "Ephem.stop", "last stored date")],
+    "C09": [(EPHF, "Ephem.order", "order read from the live interpolator, else the stored one"), (EPHF, "Ephem.order:setter", "order written to the live interpolator, else stored"),
+            (EPHF, "Ephem.method", "method read from the live interpolator, else the stored one"), (EPHF, "Ephem.method:setter", "method written to the live interpolator, else stored"),
+            (EPHF, "Ephem.interp", "interpolator built once from the current points with the current method and order"),
+            (EPHF, "Ephem.copy", "copy(frame=, form=, same=) converts the new ephemeris"), (EPHF, "Ephem.start", "first stored date"), (EPHF, "Ephem.stop", "last stored date"),
+            ("beyond/utils/interp.py", "Interp.__init__", "abscissas, ordinates, method and order stored as given; Lagrange needs an order")],
+    "C10": [(LIS, "StationMaskListener.check", "crossings below the horizon are not mask events"), (LIS, "StationMaxListener.check", "a maximum counts only above the horizon, while rising no more"),
+            (LIS, "RadialVelocityListener.check", "sight-restricted radial velocity events need a positive elevation"), (LIS, "Listener.check", "an event is a sign change between consecutive evaluations"),
+            (LIS, "events_iterator", "only event points (optionally of the requested kinds) are passed on"), (LIS, "find_event", "the n-th event of the requested kind"),
+            (LIS, "stations_listeners", "the three listeners of a station"), (LIS, "StationSignalListener.__init__", "AOS / LOS at the given elevation")],
+    "C12": [("beyond/io/tle.py", "Tle.__init__", "field slices, scalings and the two-digit year pivot (57 → 1957, 56 → 2056)")],
+    "C13": [("beyond/io/ccsds/tdm.py", "_loads_xml", "participants, path indices and measurement decoding of the XML reader"),
+            ("beyond/io/ccsds/tdm.py", "_loads_kvn", "participants, path indices and measurement decoding of the KVN reader"),
+            ("beyond/io/ccsds/tdm.py", "collect_metadata", "participants numbered once each, paths by participant number")],
+    "C14": [(COVF, "Cov.__array_finalize__", "derived arrays get their own metadata dict"), (COVF, "Cov.orb:setter", "attaching to a state detaches the state's previous covariance"),
+            (COVF, "Cov.__new__", "6×6 shape check; frame and state stored")],
+    "C15": [(COVF, "Cov.__array_finalize__", "derived arrays get their own metadata dict"), (COVF, "Cov.copy", "copy(frame=) converts the copy")],
+    "C16": [("beyond/propagators/cw.py", "ClohessyWiltshire.propagate", "maneuvers applied once each, in the window they belong to"),
+            (CWHF, "CWHelper.coelliptic", "state vector mapped by the orientation matrix"), (CWHF, "CWHelper.tangential_boost", "impulse direction mapped by the orientation matrix"),
+            (CWHF, "CWHelper.vbar_linear", "impulses and compensation mapped by the orientation matrix"), (CWHF, "CWHelper.hohmann", "two tangential impulses half a period apart"),
+            (CWHF, "CWHelper.eccentric_boost", "radial impulses"), (CWHF, "CWHelper.hohmann_distance", "3π dv / n"), (CWHF, "CWHelper.coelliptic_velocity", "drift rate 3/2 n r")],
+    "C17": [(MANF, "ImpulsiveMan.__init__", "dv, frame tag and date stored"), (MANF, "ImpulsiveMan.check", "impulse window"), (MANF, "ContinuousMan.check", "burn window"),
+            (MANF, "KeplerianImpulsiveMan.__init__", "element increments default to zero"), (MANF, "KeplerianImpulsiveMan.dv", "dv from element increments, in TNW"),
+            (MANF, "KeplerianContinuousMan.__init__", "element increments default to zero"), (MANF, "KeplerianContinuousMan.accel", "acceleration from element increments")],
+    "C20": [("beyond/frames/frames.py", "get_frame", "unknown names are reported, JPL frames created on demand")],
+}
+
+
+def pins_rule(chk):
+    from ..equiv import same_as_reference
+    pins = E8_PINS.get(chk.prop, [])
+    if not pins:
+        return
+    chk.rule("PIN", "small accessors / gates the property depends on are proven equal to their reference version (E8 value graphs)")
+    for rel, key, what in pins:
+        same_as_reference(chk, "PIN", rel, key, what)
+    chk.floor("PIN", len(pins))
